@@ -38,15 +38,19 @@ inline Outcome attempt(F&& f)
     f();
     return OK;
   } catch (const std::runtime_error& e) {
+    AllocPause nofail; // the handlers are harness code: an armed host-allocation fault must not hit them
     g_last_abort_msg = e.what();
     return ABORT;
   } catch (const GuestTrap& t) {
+    AllocPause nofail;
     g_last_abort_msg = t.why;
     return TRAP;
   } catch (const std::bad_alloc& e) {
+    AllocPause nofail;
     g_last_abort_msg = e.what();
     return ALLOCFAIL;
   } catch (const std::length_error& e) {
+    AllocPause nofail;
     g_last_abort_msg = e.what();
     return ALLOCFAIL;
   }
